@@ -99,7 +99,15 @@ class GradOracle:
         m = self.model
         Xb, Ab, ids = self.h.resolve()
         P = m._infer(Xb, retain=False)
-        s = ref_gemini(self.spec[0], self.spec[1], P, Ab)
+        eps = float(getattr(self.h.sim_gemini.real, "epsilon", 1e-12)) if self.h.sim_gemini is not None else 1e-12
+        if eps > 1e-9 and (P.min() < eps or P.max() > 1 - eps):
+            # clipping is active (non-default epsilon): the documented definitions say nothing about clipped entries, so
+            # the differentiated objective is the library's own returned score there (a change of the gradient code alone
+            # is still caught; whether that score is the right number is C01)
+            self.used_library_score = True
+            s = float(self.h.sim_gemini.real.evaluate(P, Ab))
+        else:
+            s = ref_gemini(self.spec[0], self.spec[1], P, Ab)
         if self.deco:
             f = self.deco["factor"]
             for (i, j) in self.deco["cannot_link"]:
@@ -162,7 +170,10 @@ class GradOracle:
             if np.shape(p) != np.shape(g):
                 res.violate(f"C03:direction_shape:{self.cfg['family']}", {"param": list(np.shape(p)), "grad": list(np.shape(g))})
                 return
+        self.used_library_score = False
         F0 = self.F()
+        if self.used_library_score:
+            res.probe("steps_judged_in_clipped_regime_with_library_score")
         if not np.isfinite(F0):
             res.probe("steps_nonfinite_objective")
             return
